@@ -389,6 +389,16 @@ def more_sites(df, meta, bound, rng):
                 sites['IPSW.treatment_model' + tag] = (vals[False][1], vals[True][1])
                 if not stab:        # unstabilised generalisation weight is exactly 1 / Pr(S=1 | W) at the clipped probability
                     sites['IPSW.ipsw' + tag] = (vals[False][0], 1 / vals[True][2])
+                    # transport (generalize=False): the unstabilised weight is the inverse odds (1-p)/p at the clipped probability
+                    tv = {}
+                    for bd in (None, bound):
+                        e = IPSW(d, exposure='A', outcome='Y', selection='S', generalize=False)
+                        if how == 'keyword':
+                            e.sampling_model(rhs, bound=bd, stabilized=stab, print_results=False)
+                        else:
+                            e.sampling_model(rhs, '1', bd, stab, False)
+                        tv[bd is not None] = (np.asarray(e.sample['__denom__'], dtype=float), np.asarray(e.ipsw, dtype=float))
+                    sites['IPSW.iosw' + tag] = (tv[False][0], 1 / (1 + tv[True][1]))
                 vals = {}
                 for bd in (None, bound):
                     e = AIPSW(d, exposure='A', outcome='Y', selection='S', generalize=True)
